@@ -82,12 +82,12 @@ pub fn pagerank(
             *score += dangling_contrib;
         }
 
-        // Check convergence
+        // Check convergence: largest per-node change, same rule as the Python implementation
         let diff: f64 = scores
             .iter()
             .zip(new_scores.iter())
             .map(|(a, b)| (a - b).abs())
-            .sum();
+            .fold(0.0, f64::max);
 
         std::mem::swap(&mut scores, &mut new_scores);
 
